@@ -835,7 +835,7 @@ pub fn probes() -> Vec<SimCase> {
         s1.action = Some(Action::UpdateTimer { replace: false, duration: konst(0.0), limit: None });
         res.push(SimCase { id: "probe-F10-timer-zero".into(), kind: "probe".into(), mc: vec![plain_machine(vec![s0, s1])], ms: vec![], trace: vec![(0, true), (5_000_000, true)], delay_ns: 1_000_000, runs: vec![probe_run(None)] });
     }
-    // F12: a BlockOutgoing selected by pick_next is executed at selection time, before it is due:
+    // S1: a BlockOutgoing selected by pick_next is executed at selection time, before it is due:
     // the blocking expiry / bypass flag change early, and a newer action does not supersede it
     {
         let a0 = State::new(enum_map! { Event::NormalSent => tr1(1), _ => vec![] });
@@ -851,7 +851,7 @@ pub fn probes() -> Vec<SimCase> {
         let mut c2 = State::new(enum_map! { Event::TunnelSent => tr1(1), _ => vec![] });
         c2.action = Some(blk);
         res.push(SimCase {
-            id: "probe-F12-early-block-execution".into(),
+            id: "probe-S1-early-block-execution".into(),
             kind: "probe".into(),
             mc: vec![plain_machine(vec![a0, a1]), plain_machine(vec![b0, b1]), plain_machine(vec![c0, c1, c2])],
             ms: vec![],
